@@ -11,8 +11,8 @@ import (
 	"regexp"
 	"strings"
 
-	gmodel "github.com/reedom/convergen/pkg/generator/model"
 	"github.com/reedom/convergen/pkg/generator"
+	gmodel "github.com/reedom/convergen/pkg/generator/model"
 	"github.com/reedom/convergen/pkg/vrt"
 )
 
